@@ -446,7 +446,7 @@ fn unit64<T: Fl>(v: [T; 3]) -> [F; 3] {
 
 fn gen_float<T: Fl + std::ops::Add<Output = T> + std::ops::Mul<Output = T>>(rng: &mut Rng) -> Case<T> {
     use std::f64::consts::PI;
-    let mut angle = |rng: &mut Rng| -> T {
+    let angle = |rng: &mut Rng| -> T {
         let x = match rng.below(8) {
             0 => rng.f64_in(-50.0, 50.0),                      // well beyond +-2pi
             1 => rng.f64_in(-1e-3, 1e-3),                      // tiny
@@ -961,9 +961,9 @@ const COMMON_RULE: &str = "Per case and layout (Rows/Cols) each builder family i
 fn main() {
     let cfg = Config::from_args(PROP);
     let mut rep = Report::new(cfg.clone());
-    let n_exact = cfg.n(1500, 60_000);
-    let n_fp = cfg.n(1500, 60_000);
-    let n_float = cfg.n(1500, 60_000);
+    let n_exact = cfg.n(6000, 400_000);
+    let n_fp = cfg.n(6000, 400_000);
+    let n_float = cfg.n(6000, 400_000);
 
     // ---- exact rationals
     {
